@@ -270,9 +270,11 @@ class EngineD:
                 steps.append(step)
                 written.append(path)
                 if g.random() < 0.6:
-                    steps.append({"op": "import", "path": path, "index_base": 1})
+                    steps.append({"op": "import", "path": path, "index_base": 1, "scribble": g.random() < 0.4})
+                    if g.random() < 0.3:
+                        steps.append({"op": "import", "path": path, "index_base": 1, "scribble": g.random() < 0.4})
             elif k == "import":
-                steps.append({"op": "import", "path": g.choice(written), "index_base": 1})
+                steps.append({"op": "import", "path": g.choice(written), "index_base": 1, "scribble": g.random() < 0.4})
             else:
                 path = g.choice(PATHS)
                 base = g.choice([0, 1, 0, 2])
@@ -457,6 +459,10 @@ class EngineD:
                 got = None
             if v is None:
                 v = self._compare(got, truth, V)
+            if v is None and step.get("scribble"):
+                # the application goes on to edit, in place, what it was handed: that object is its own
+                self._scribble(got)
+                res.bump("imported_objects_edited")
             if v is None:
                 res.bump("roundtrips_checked")
                 if "foreign_base" in truth:
@@ -468,6 +474,25 @@ class EngineD:
             res.violation = v
             return False
         return True
+
+    def _scribble(self, got):
+        ttb = self.ttb
+        try:
+            with np.errstate(all="ignore"):
+                if isinstance(got, ttb.tensor):
+                    got.data[...] = -2.0 * got.data - 1.0
+                elif isinstance(got, ttb.sptensor):
+                    if got.vals.size:
+                        got.vals[...] = -2.0 * got.vals - 1.0
+                        got.subs[...] = 0
+                elif isinstance(got, ttb.ktensor):
+                    got.weights[...] = -2.0 * got.weights - 1.0
+                    for f in got.factor_matrices:
+                        f[...] = -2.0 * f - 1.0
+                elif isinstance(got, np.ndarray):
+                    got[...] = -2.0 * got - 1.0
+        except (ValueError, TypeError):
+            pass
 
     def _compare(self, got, truth, V) -> Optional[Violation]:
         ttb = self.ttb
